@@ -62,7 +62,10 @@ DOMAINS = {
     "hour": list(range(24)),
     "minute": list(range(60)),
     "second": list(range(60)),
-    "yday": list(range(1, 367)),
+    # every day of a common and of a leap year, with the calendar fields a helper may look at
+    "yday": [{"year": y, "month": m, "day": d, "yday": sum(ml[:m - 1]) + d}
+             for y, ml in ((2023, [31, 28, 31, 30, 31, 30, 31, 31, 30, 31, 30, 31]), (2024, [31, 29, 31, 30, 31, 30, 31, 31, 30, 31, 30, 31]))
+             for m in range(1, 13) for d in range(1, ml[m - 1] + 1)],
     "day": list(range(1, 32)),
     # microseconds: every digit-length class and the boundaries of each leading-digit group
     "microsecond": sorted(set([0, 1, 9, 10, 99, 100, 999, 1000, 9999, 10000, 99999, 100000, 123456, 500000, 909090, 999999] + [d * 10**k for d in range(1, 10) for k in range(6)]
@@ -74,6 +77,11 @@ def helper_env(repo):
     """Module-level helpers of constants.py that the table's lambdas may call, as evaluable closures over the field dict."""
     env = {}
     tree = repo.tree("constants.py")
+    for n in tree.body:
+        if isinstance(n, ast.Assign) and len(n.targets) == 1 and isinstance(n.targets[0], ast.Name):
+            cv = try_const(n.value, repo.consts)
+            if isinstance(cv, (int, str, tuple, list)) and not isinstance(cv, bool):
+                env[n.targets[0].id] = cv
     for n in tree.body:
         if isinstance(n, ast.FunctionDef) and n.name.startswith("_") and len(n.args.args) == 1:
             def mk(fn):
@@ -189,13 +197,13 @@ def run(repo, rep, tier):
             for val in DOMAINS[field]:
                 fields = {field: val}
                 if field == "yday":
-                    fields = {"yday": val}
+                    fields = dict(val)
                 env = dict(henv)
                 env[arg] = fields
                 got = ev(v.body, env)
-                want = want_fn(val)
+                want = want_fn(val["yday"] if field == "yday" else val)
                 if got != want:
-                    bad.append((val, got, want))
+                    bad.append((f"{val['year']}-{val['month']:02d}-{val['day']:02d}" if field == "yday" else val, got, want))
         except Unknown as e:
             raise AnalysisError(f"directive {k}: construct outside the evaluator's language ({e}) in `{U(v)[:80]}`") from e
         except Exception as e:  # noqa: BLE001
@@ -288,7 +296,10 @@ def check_scanner(repo, rep):
 VARIANTS = [
     M("F-day-floordiv-7", "constants.py", "n_days = int((value - value.replace(day=1)).days / 7) + 1", "n_days = value.day // 7 + 1", "C14.R3"),
     T("F-day-minus-one", "constants.py", "n_days = int((value - value.replace(day=1)).days / 7) + 1", "n_days = (value.day - 1) // 7 + 1"),
-    M("date-format-bypass", "cell.py", "            format_map = self._model.custom_format_map()\n            custom_format = format_map[format_uuid].default_format", "            format_map = self._model.custom_format_map()\n            if format_uuid not in format_map:\n                return str(self.value)\n            custom_format = format_map[format_uuid].default_format", "C14.R1"),
+    M("date-format-bypass", "cell.py", "            format_uuid = NumbersUUID(date_format.custom_uid).hex\n            format_map = self._model.custom_format_map()\n",
+      "            format_uuid = NumbersUUID(date_format.custom_uid).hex\n            format_map = self._model.custom_format_map()\n            if format_uuid not in format_map:\n                return str(self.value)\n", "C14.R1"),
+    M("day-of-year-no-leap", "constants.py", "    return value.timetuple().tm_yday", "    return [0, 31, 59, 90, 120, 151, 181, 212, 243, 273, 304, 334][value.month - 1] + value.day", "C14.R3"),
+    T("day-of-year-ordinal", "constants.py", "    return value.timetuple().tm_yday", "    return int(value.strftime(\"%j\"))"),
     M("revert-fix-k-replace", "constants.py", '("k", lambda x: str(x.hour or 24)),', '("k", lambda x: str(x.hour).replace("0", "24")),', "C14.R3"),
     M("KK-mod-24", "constants.py", '("KK", lambda x: str(x.hour % 12).zfill(2)),', '("KK", lambda x: str(x.hour % 24).zfill(2)),', "C14.R3"),
     M("mm-zfill-1", "constants.py", '("mm", lambda x: str(x.minute).zfill(2)),', '("mm", lambda x: str(x.minute).zfill(1)),', "C14.R3"),
